@@ -19,6 +19,9 @@ type Spec struct {
 	Index        bool        // index maintenance scenario (C13 oracle)
 	Epochs       int
 	StoreHandler bool // SH1 oracle
+	// Conn2Want: subjects that must have been published on the second epoch's (fresh) connection; the scenario
+	// reports them in a "conn2" observation
+	Conn2Want []string
 	// Late: callback ids / request replies that the scenario submits while the service is started (after a
 	// restart) and whose completion it awaits (AwaitQuiescence) before it calls Shutdown again: they must run
 	// (be answered) exactly once even though the scenario also shuts the service down.
@@ -72,6 +75,9 @@ func Judge(sp *Spec, r *vsched.Result) []string {
 			if g != "" {
 				if other, busy := occ[g]; busy {
 					add("C01", "callbacks %s and %s of group %q overlap", other, id, g)
+					if isQueryCB(id) || isQueryCB(other) {
+						add("C15", "query callback not serialized in the resource's group: %s and %s of group %q overlap", other, id, g)
+					}
 				}
 				occ[g] = id
 			}
@@ -126,6 +132,19 @@ func Judge(sp *Spec, r *vsched.Result) []string {
 			}
 		case "panic":
 			add("C03", "API call panicked: %s", strings.Join(f[1:], " "))
+		case "conn2":
+			for _, want := range sp.Conn2Want {
+				found := false
+				for _, subj := range f[1:] {
+					if subj == want {
+						found = true
+					}
+				}
+				if !found {
+					add("C03", "the restarted service did not publish %s on its new connection (published there: %v)", want, f[1:])
+					add("C08", "a message of a callback of the restarted service (%s) did not appear on the served connection (published there: %v)", want, f[1:])
+				}
+			}
 		}
 	}
 	for id, ci := range cbs {
@@ -250,4 +269,9 @@ func firstLines(s string, n int) string {
 		l = l[:n]
 	}
 	return strings.Join(l, " | ")
+}
+
+// isQueryCB: callback ids of query requests (q<ev>:<query>) and of the expiry call (nil<ev>).
+func isQueryCB(id string) bool {
+	return strings.HasPrefix(id, "nil") || (strings.HasPrefix(id, "q") && strings.Contains(id, ":"))
 }
